@@ -30,6 +30,8 @@ FIRST = {
     "r3_c03_a2_empty_enum_first_default_nullable": "MISSED (rule-less nonterminals were never referenced, because the pinned tree panics on them)",
     "r3_c03_b1_merge_unless_rr_conflict_stale_transition": "MISSED (no LR(1)-only grammar whose contexts have different depths / recursive wrappers; the change also makes generate hang on ~5 % of the workload, which at that time hung the check itself)",
     "r3_c03_c1_conflict_aware_merge_stale_transition": "MISSED (same mechanism as r3_c03_b1, written independently)",
+    "r4_c14_b1_backtrace_in_internal_error": "MISSED (std caches `RUST_BACKTRACE` at its first use in the process; every worker's first call was a canonical, clean one, so nothing ever differed in-process or between workers)",
+    "r4_c14_b2_capitalization_check_over_hashmap": "MISSED (never two badly capitalised *top-level* names in one text)",
 }
 
 
